@@ -54,7 +54,7 @@ type ObjCase struct {
 func genObjCase(t *rapid.T) ObjCase {
 	c := ObjCase{
 		Chain: ck.ChainCfg{Profile: rapid.SampledFrom([]string{"V1C1", "V4C6"}).Draw(t, "profile")},
-		Shape: rapid.SampledFrom([]string{"inv", "inv", "ver", "signers", "mixed", "contracts", "groups", "rules", "script", "nest", "and", "scope", "action", "version", "dupattr", "unscoped"}).Draw(t, "shape"),
+		Shape: rapid.SampledFrom([]string{"inv", "inv", "ver", "signers", "mixed", "contracts", "groups", "rules", "script", "nest", "and", "scope", "action", "version", "dupattr", "unscoped", "witnesses"}).Draw(t, "shape"),
 		Nonce: rapid.Uint32().Draw(t, "nonce"),
 	}
 	switch c.Shape {
@@ -87,6 +87,9 @@ func genObjCase(t *rapid.T) ObjCase {
 		c.A = rapid.IntRange(0, 2).Draw(t, "version")
 	case "dupattr":
 		c.A = rapid.IntRange(1, 3).Draw(t, "nvbs")
+	case "witnesses":
+		// two signers, A witnesses: 1 (one missing), 2, 3 (one too many: a copy of the last one)
+		c.A = rapid.IntRange(1, 3).Draw(t, "nwit")
 	case "unscoped":
 		// A entries in a scope list whose scope is NOT set (the list is not a part of the wire form): B 0 contracts,
 		// 1 groups, 2 rules
@@ -135,6 +138,9 @@ func checkObjCase(c ObjCase, o *vt.Obs) error {
 		for i := 0; i < c.A; i++ {
 			add(ck.Single(widePool[i]))
 		}
+	case "witnesses":
+		add(ck.Single(widePool[0]))
+		add(ck.Single(widePool[1]))
 	default:
 		add(ck.Single(widePool[0]))
 	}
@@ -257,6 +263,15 @@ func checkObjCase(c ObjCase, o *vt.Obs) error {
 	}
 	size := len(txBytes(tmpl))
 	tx := k.sign(tmpl, rs, verFee+int64(size)*bc.FeePerByte()+af)
+	if c.Shape == "witnesses" {
+		switch c.A {
+		case 1:
+			tx.Scripts = tx.Scripts[:1]
+		case 3:
+			tx.Scripts = append(tx.Scripts, tx.Scripts[1].Copy())
+		}
+		size = len(txBytes(tx))
+	}
 	raw := txBytes(tx)
 	if len(raw) != size {
 		return fmt.Errorf("harness: size moved with the signatures (%d -> %d)", size, len(raw))
@@ -268,6 +283,14 @@ func checkObjCase(c ObjCase, o *vt.Obs) error {
 	what := fmt.Sprintf("object %s a=%d b=%d (size %d, %d signers, %d attributes, invocation %d B, verification %d B, script %d B)",
 		c.Shape, c.A, c.B, size, len(tx.Signers), len(tx.Attributes), len(tx.Scripts[0].InvocationScript), len(tx.Scripts[0].VerificationScript), len(tx.Script))
 	o.Units(1)
+	var pan any
+	func() { // whatever the object looks like, admission answers with an error, it does not panic
+		defer func() { pan = recover() }()
+		_ = bc.VerifyTx(tx)
+	}()
+	if pan != nil {
+		return fmt.Errorf("VerifyTx panics: %v; %s", pan, what)
+	}
 	if rawErr == nil {
 		o.Labelf("objlimit-%s-parsable", c.Shape)
 		if err := expectAccept(bc, tx, "its bytes parse: "+what); err != nil {
